@@ -1,20 +1,30 @@
-(* C01 RobotWarehouse (PARTIAL): of the declared observation spec (agents_view int32 [num_agents, num_obs_features] without bounds,
-   action_mask bool [num_agents, 5], step_count in [0, time_limit]) the following is proved for every state and joint action:
-   step_count grows by one and a MID step leaves it below the limit (so it is <= time_limit up to and including the terminal
-   step); the mask has one row of 5 entries per agent.  Full statement (not proved, correspondence-checked + generic validate
-   on every emitted timestep): additionally every agents_view row has exactly nfeat(sensor_range) entries. *)
-Require Import JV.Base.Prelude JV.Base.JaxIndex JV.Base.Codec JV.Base.TimeStep JV.Model.RobotWarehouse JV.Proofs.RobotWarehouse_lib JV.Proofs.RobotWarehouse JV.Proofs.RobotWarehouse_Step JV.Proofs.RobotWarehouse_Check.
-Theorem C01_RobotWarehouse_step_count_partial c s acts draws :
+(* C01 RobotWarehouse: everything emitted conforms to the declared observation spec (agents_view int32
+   [num_agents, num_obs_features] without bounds, action_mask bool [num_agents, 5], step_count in [0, time_limit]).
+   Proved for every state and joint action: step_count grows by one and a MID step leaves it below the limit (so it is
+   <= time_limit up to and including the terminal step); the mask has one row of 5 entries per agent; and for EVERY state
+   (consistent or not, terminal collision states included), every agent index and every sensor range, each agents_view row
+   written by the code's writer (dynamic_update_slice at a running index) has exactly nfeat(sensor_range) =
+   num_obs_features entries, one row per agent. *)
+Require Import JV.Base.Prelude JV.Base.JaxIndex JV.Base.Codec JV.Base.TimeStep JV.Model.RobotWarehouse JV.Proofs.RobotWarehouse_lib JV.Proofs.RobotWarehouse JV.Proofs.RobotWarehouse_Step JV.Proofs.RobotWarehouse_Check JV.Proofs.RobotWarehouse_Obs.
+Theorem C01_RobotWarehouse_step_count c s acts draws :
   cnt (fst (step c s acts draws)) = cnt s + 1
   /\ (st (snd (step c s acts draws)) = MID -> cnt (fst (step c s acts draws)) < tlim c).
 Proof. exact (conj (step_cnt c s acts draws) (mid_below_limit c s acts draws)). Qed.
-Theorem C01_RobotWarehouse_mask_shape_partial c s acts draws :
+Theorem C01_RobotWarehouse_mask_shape c s acts draws :
   let s' := fst (step c s acts draws) in
   zlen (amask s') = zlen (agents s') /\ Forall (fun r => zlen r = 5) (amask s').
 Proof. exact (step_mask_shape c s acts draws). Qed.
-Print Assumptions C01_RobotWarehouse_step_count_partial.
-Print Assumptions C01_RobotWarehouse_mask_shape_partial.
+Theorem C01_RobotWarehouse_view_row_length c s i : zlen (agent_obs c s i) = nfeat (srange c).
+Proof. exact (agent_obs_len c s i). Qed.
+Theorem C01_RobotWarehouse_view_shape c s : 0 <= nag c ->
+  zlen (observe c s) = nag c /\ Forall (fun row => zlen row = nfeat (srange c)) (observe c s).
+Proof. exact (observe_shape c s). Qed.
+Print Assumptions C01_RobotWarehouse_step_count.
+Print Assumptions C01_RobotWarehouse_mask_shape.
+Print Assumptions C01_RobotWarehouse_view_row_length.
+Print Assumptions C01_RobotWarehouse_view_shape.
 Example C01_RobotWarehouse_nonvacuous :
   spec_ok_b ex_c ex_s0 = true /\ spec_ok_b ex_c ex_s1 = true /\ nfeat (srange ex_c) = 66
+  /\ zlen (agent_obs ex_c ex_s1 0) = 66
   /\ spec_ok_b ex_c (mkS (gsh ex_s0) (gag ex_s0) (agents ex_s0) (shelves ex_s0) (queue ex_s0) 6 (amask ex_s0)) = false.
 Proof. vm_compute. repeat split; reflexivity. Qed.
